@@ -529,6 +529,25 @@ impl<'a> World<'a> {
                 if !self.ex[e].tpls.is_empty() && self.rng.permille(cfg.redefine) {
                     let i = self.rng.usize_below(self.ex[e].tpls.len());
                     let was_opt = self.ex[e].tpls[i].def.is_options();
+                    if self.ex[e].tpls[i].announced && self.rng.chance(1, 3) {
+                        // redefinition in the middle of a packet: data under the old definition,
+                        // the new template, data under the new definition
+                        let old = self.ex[e].tpls[i].clone();
+                        let opt = was_opt;
+                        self.ex[e].tpls[i].def = self.rand_def(kind, opt);
+                        self.stats.hit("redefine");
+                        self.stats.hit("redefine_between_data_sets_of_one_packet");
+                        let n1 = self.rng.urange(1, cfg.max_records.max(1));
+                        let n2 = self.rng.urange(1, cfg.max_records.max(1));
+                        let d1 = self.data_set(kind, &old, n1);
+                        let t = self.template_sets(kind, &[i], e, true);
+                        let new = self.ex[e].tpls[i].clone();
+                        let d2 = self.data_set(kind, &new, n2);
+                        let mut sets = vec![d1];
+                        sets.extend(t);
+                        sets.push(d2);
+                        return self.assemble(e, sets, n1 + n2 + 1);
+                    }
                     let opt = if cfg.options && self.rng.permille(cfg.kind_switch) { !was_opt } else { was_opt };
                     if opt != was_opt {
                         self.stats.hit("kind_switch");
